@@ -116,6 +116,7 @@ inductive Step
   | ioComplete (sid : Nat)             -- handshake of a connecting session completed
   | ioFail (sid : Nat)                 -- a connecting session failed (refused, reset, TLS failure, …)
   | ioPeerClose (sid : Nat)            -- an established session was closed by the peer
+  | timerClose (sid : Nat)             -- the I/O thread processes the Close the engine's CONNECT-TIMEOUT timer enqueued for `sid`
   | ioStep                             -- the I/O thread advances inside the current handler
   | fence                              -- `setTeardownFence` / first half of `teardownWaitOut`
   deriving Repr
@@ -331,6 +332,9 @@ def step (s : State) : Step → State
   | .ioComplete sid => doComplete s sid
   | .ioFail sid => doFail s sid
   | .ioPeerClose sid => doPeerClose s sid
+  -- mirrors tcp_engine.hpp::process(), Close arm, origin ConnectTimeout (`if (!s->connectPending) break;`): the close is executed
+  -- only while the connect is still pending — exactly `doFail`; once the connect completed it is a stale timer and ignored
+  | .timerClose sid => doFail s sid
   | .ioStep  => doIoStep s 
   | .fence  => doFence s 
 
@@ -431,7 +435,15 @@ def doWakeTokenFirst (s : State) (c : Nat) (t : Bool) : State :=
     else s'
   | _, _, _ => s'
 
+/-- the Close of a timer handler that does NOT tag its origin (seed C04-e: `handleConnectTimeout` enqueues a plain close, origin
+App): `process()` executes it like an application close, whatever the state of the connect -/
+def doTimerCloseUntagged (s : State) (sid : Nat) : State :=
+  match s.io, s.eng sid with
+  | .idle, .connecting | .idle, .established => { s with eng := setE s.eng sid .closed, io := .closeCS sid }
+  | _, _ => s
+
 def stepC (cfg : Cfg) (s : State) : Step → State
+  | .timerClose sid => if cfg.engine then doFail s sid else doTimerCloseUntagged s sid
   | .cEnter c => if cfg.noBypass then doEnter s c else doEnterBypass s c
   | .cClose c => if cfg.engine then doClose s c else doCloseDrop s c
   | .cConnect c => if cfg.lockHeld then doConnect s c else { doConnect s c with lock := none }
@@ -479,6 +491,7 @@ def enabled (s : State) : Step → Bool
   | .ioComplete sid => s.io == .idle && s.eng sid == .connecting
   | .ioFail sid => s.io == .idle && s.eng sid == .connecting
   | .ioPeerClose sid => s.io == .idle && s.eng sid == .established
+  | .timerClose _ => s.io == .idle        -- a stale timer close is processed too (and ignored)
   | .ioStep => (match s.io with | .idle => false | .connCS _ | .closeCS _ => s.lock.isNone | _ => true)
   | .fence => s.lock.isNone
 
